@@ -209,6 +209,10 @@ def comparison_operands(chk):
     o_dnl = L.field('br_x509_trust_anchor', 'dn.len')[0]
     hd = F.calls('hash_dn')
     for fn in ('check_single_direct_trust', 'check_single_trust_anchor_CA'):
+        if len(F.calls(fn)) != 2:
+            chk.violation(R, 'br_x509_minimal_run: %s is consulted for static and for dynamic trust anchors' % fn, F.where(),
+                          '%d call site(s) instead of 2: one kind of anchor is accepted without the name / key / signature comparison' % len(F.calls(fn)),
+                          key='%s run %s count' % (R, fn))
         for c in F.calls(fn):
             n += 1
             buf, ta = F.strip_casts(c['ops'][1]), F.strip_casts(c['ops'][2])
@@ -251,7 +255,7 @@ def comparison_operands(chk):
                 chk.ok(R, inst, F.where(c))
             else:
                 chk.violation(R, inst, F.where(c), 'no dominating hash_dn(ctx, ta->dn.data, ta->dn.len, buf) / memcpy(buf, ta->dn.data, ..) filling the buffer passed from the anchor passed', key='%s run %s %s' % (R, fn, len(chk.obls)))
-    chk.floor('anchor comparisons traced', n, 12)
+    chk.floor('anchor comparisons traced', n, 8)
 
 
 def _loaded_from(F, c, off):
